@@ -234,8 +234,7 @@ def main(argv=None):
     keep = bool(os.environ.get("VERIF_KEEP_WORK"))
     if harness_errors:
         print("HARNESS-ERROR (no verdict):")
-        for h in harness_errors[:3]:
-            print(h[-3000:])
+        print(harness_errors[0][-1800:])
         if not keep:
             shutil.rmtree(run_dir, ignore_errors=True)
         return 2
@@ -251,6 +250,11 @@ def main(argv=None):
     if len(nontrivial) < min_nt:
         print("HARNESS-ERROR: generator starved (distinct non-trivial %d < %d)" % (len(nontrivial), min_nt))
         return 2
+    if hasattr(mod, "starved"):
+        msg = mod.starved(tier, classes)
+        if msg:
+            print("HARNESS-ERROR: generator starved: %s" % msg)
+            return 2
     print("OK property=%s" % pid)
     return 0
 
